@@ -14,8 +14,6 @@
     from [invariant_run]. *)
 From Aranya Require Import base.Tactics.
 
-Set Implicit Arguments.
-
 Section Lists.
   Variable A : Type.
 
@@ -45,13 +43,60 @@ Section Lists.
     (j = i /\ y = v) \/ (j <> i /\ nth_error l j = Some y).
   Proof.
     intros Hi Hj. destruct (Nat.eq_dec j i) as [->|Hne].
-    - rewrite (nth_error_upd_same _ _ Hi) in Hj. left; split; congruence.
+    - rewrite (nth_error_upd_same _ _ _ _ Hi) in Hj. left; split; congruence.
     - rewrite nth_error_upd_other in Hj by congruence. right; auto.
   Qed.
 
   Lemma upd_same_value l i x : nth_error l i = Some x -> upd l i x = l.
   Proof. revert i; induction l; destruct i; cbn; intros; try congruence. f_equal; auto. Qed.
 End Lists.
+Arguments upd {A}.
+Arguments upd_length {A}.
+Arguments nth_error_upd_same {A}.
+Arguments nth_error_upd_other {A}.
+Arguments nth_error_upd {A}.
+Arguments upd_same_value {A}.
+
+(** Sums of a per-thread quantity over the thread table, and how one step
+    (an update at one index) changes them. *)
+Section Sums.
+  Variable A : Type.
+  Variable f : A -> nat.
+
+  Fixpoint sumf (l : list A) : nat :=
+    match l with
+    | [] => O
+    | x :: r => f x + sumf r
+    end.
+
+  Lemma sumf_upd l i x v :
+    nth_error l i = Some x -> sumf (upd l i v) + f x = sumf l + f v.
+  Proof.
+    revert i; induction l as [|a r IH]; destruct i; cbn; intros H; try discriminate.
+    - inv H. lia.
+    - specialize (IH _ H). lia.
+  Qed.
+
+  Lemma sumf_ge l i x : nth_error l i = Some x -> f x <= sumf l.
+  Proof.
+    revert i; induction l as [|a r IH]; destruct i; cbn; intros H; try discriminate.
+    - inv H. lia.
+    - specialize (IH _ H). lia.
+  Qed.
+
+  Lemma sumf_zero l : sumf l = O -> forall i x, nth_error l i = Some x -> f x = O.
+  Proof. intros H i x Hx. pose proof (sumf_ge _ _ _ Hx). lia. Qed.
+
+  Lemma sumf_all_zero l : (forall x, In x l -> f x = O) -> sumf l = O.
+  Proof.
+    induction l; cbn; intros H; auto. rewrite (H a) by auto. rewrite IHl; auto.
+  Qed.
+End Sums.
+Arguments sumf {A}.
+Arguments sumf_upd {A}.
+Arguments sumf_ge {A}.
+Arguments sumf_zero {A}.
+Arguments sumf_all_zero {A}.
 
 Section Interleave.
   Variables (shared local event : Type).
@@ -182,3 +227,9 @@ Arguments G {shared local}.
 Arguments sh {shared local}.
 Arguments th {shared local}.
 Arguments at_ {shared local}.
+Arguments gstep {shared local event}.
+Arguments enabled {shared local event}.
+Arguments exec {shared local event}.
+Arguments run {shared local event}.
+Arguments trace {shared local event}.
+Arguments reachable {shared local event}.
